@@ -6,7 +6,9 @@
 (*   lockStatusFile / unlockStatusFile  flock(2) on "<status>.lock" through *)
 (*                                      lockedfile.OpenFile(O_WRONLY)      *)
 (*   StatusFileData.UpdateFullStatus    lock, open, (size>0: read), apply, *)
-(*                                      truncate(0), write, unlock         *)
+(*                                      write in place, truncate to the    *)
+(*                                      new length, unlock (before the     *)
+(*                                      repair: truncate(0), then write)   *)
 (*   StatusFileData.Load                lock, open, read+parse, unlock     *)
 (*   StatusFileData.Save                lock, open(O_TRUNC), write, unlock *)
 (*   BaseWorkUnit.{UpdateFullStatus,UpdateBasicStatus,Load}  additionally  *)
@@ -34,7 +36,9 @@ CONSTANTS Actors,      \* goroutines
           Tags,        \* opaque part of a record (stands for State/Detail/StdoutSize...) written by updates
           LoadLocks,   \* TRUE: Load takes the file lock                       (code: TRUE)
           SaveLocks,   \* TRUE: Save takes the file lock                       (code: TRUE)
-          Reread       \* TRUE: UpdateFullStatus re-reads the file under lock  (code: TRUE)
+          Reread,      \* TRUE: UpdateFullStatus re-reads the file under lock  (code: TRUE)
+          TruncFirst   \* TRUE: UpdateFullStatus truncates, then writes (the code before its repair);
+                       \* FALSE: writes the new record in place, then cuts the file to its length (code: FALSE)
 
 None   == "none"
 Absent == [k |-> "absent"]   \* the file does not exist
@@ -134,23 +138,24 @@ UFS_Apply(a, h) ==
   /\ pc' = [pc EXCEPT ![a] = "u_applied"]
   /\ UNCHANGED <<file, fver, lock, olock, rver, kind, left, done, doneBy, torn, lost>>
 
-\* file.Truncate(0)
+\* before the repair: file.Truncate(0) ahead of the write - the file is empty in between;
+\* since: file.Truncate(length of the new record) after the write - a stale tail behind the first JSON value is cut,
+\* which no reader can tell (loadFromFile decodes the first value only)
 UFS_Trunc(a) ==
-  /\ pc[a] = "u_applied"
-  /\ file' = Empty
-  /\ pc' = [pc EXCEPT ![a] = "u_truncd"]
+  /\ IF TruncFirst THEN pc[a] = "u_applied" /\ file' = Empty /\ pc' = [pc EXCEPT ![a] = "u_truncd"]
+                   ELSE pc[a] = "u_wrote" /\ UNCHANGED file /\ pc' = [pc EXCEPT ![a] = "u_written"]
   /\ UNCHANGED <<fver, lock, olock, mem, rver, kind, left, done, doneBy, torn, lost>>
 
 \* saveToFile(file)
 UFS_Write(a) ==
-  /\ pc[a] = "u_truncd"
+  /\ pc[a] = IF TruncFirst THEN "u_truncd" ELSE "u_applied"
   /\ file' = mem[ObjOf[a]]
   /\ fver' = fver + 1
   /\ lost' = (lost \/ rver[a] # fver)
   /\ IF kind[a] = "inc"
        THEN done' = done + 1 /\ doneBy' = [doneBy EXCEPT ![a] = @ + 1]
        ELSE UNCHANGED <<done, doneBy>>
-  /\ pc' = [pc EXCEPT ![a] = "u_written"]
+  /\ pc' = [pc EXCEPT ![a] = IF TruncFirst THEN "u_written" ELSE "u_wrote"]
   /\ UNCHANGED <<lock, olock, mem, rver, kind, left, torn>>
 
 UFS_Unlock(a) ==
@@ -227,7 +232,7 @@ Next == \E a \in Actors : Step(a)
 Spec == Init /\ [][Next]_vars
 
 \* ---------------------------------------------------------------- properties (C14)
-InFileCS(a) == pc[a] \in {"u_locked", "u_read", "u_applied", "u_truncd", "u_written",
+InFileCS(a) == pc[a] \in {"u_locked", "u_read", "u_applied", "u_truncd", "u_wrote", "u_written",
                           "l_locked", "l_read", "s_locked", "s_truncd", "s_written"}
 
 TypeOK ==
@@ -251,7 +256,7 @@ NoTornRead == \A a \in Actors : ~torn[a]
 EmptyOnlyInside == file = Empty => \E a \in Actors : pc[a] \in {"u_truncd", "s_truncd"}
 
 \* anti-vacuity witnesses (each must be violated)
-W_NoContention  == ~(\E a, b \in Actors : a # b /\ pc[a] = "u_truncd" /\ pc[b] \in {"u_want", "l_want"})
+W_NoContention  == ~(\E a, b \in Actors : a # b /\ pc[a] \in {"u_truncd", "u_wrote"} /\ pc[b] \in {"u_want", "l_want"})
 W_NoTwoUpdates  == done < 2
 W_NoLoadOfRec   == ~(\E a \in Actors : pc[a] = "l_read" /\ IsRec(file) /\ done >= 1)
 W_AllDone       == ~(\A a \in Actors : left[a] = 0 /\ pc[a] = "idle")
